@@ -109,13 +109,26 @@ pub(crate) fn parse_instruction(input: ParserInput) -> InternalParserResult<Inst
             )
         }),
         Some((Token::NonBlocking, remainder)) => match super::split_first_token(remainder) {
-            Some((Token::Command(command), remainder)) => match command {
-                Command::Pulse => command::parse_pulse(remainder, false),
-                Command::Capture => command::parse_capture(remainder, false),
-                Command::RawCapture => command::parse_raw_capture(remainder, false),
-                _ => todo!(),
-            },
-            _ => todo!(),
+            Some((Token::Command(Command::Pulse), remainder)) => {
+                command::parse_pulse(remainder, false)
+            }
+            Some((Token::Command(Command::Capture), remainder)) => {
+                command::parse_capture(remainder, false)
+            }
+            Some((Token::Command(Command::RawCapture), remainder)) => {
+                command::parse_raw_capture(remainder, false)
+            }
+            Some((token, _)) => Err(nom::Err::Failure(InternalParseError::from_kind(
+                remainder,
+                ParserErrorKind::ExpectedToken {
+                    actual: token.clone(),
+                    expected: "PULSE, CAPTURE, or RAW-CAPTURE".to_owned(),
+                },
+            ))),
+            None => Err(nom::Err::Failure(InternalParseError::from_kind(
+                remainder,
+                ParserErrorKind::UnexpectedEOF("PULSE, CAPTURE, or RAW-CAPTURE"),
+            ))),
         },
         Some((Token::Identifier(_), _)) | Some((Token::Modifier(_), _)) => gate::parse_gate(input),
         Some((_, _)) => Err(nom::Err::Failure(InternalParseError::from_kind(
